@@ -422,7 +422,12 @@ func (e *c08Env) emit(name string, outcome string, args ...string) {
 	f := append([]string{name}, args...)
 	f = append(f, outcome)
 	f = append(f, e.state()...)
-	e.tr.Line("lend.op", f...)
+	if name == "handover" {
+		// own trace kind: the liquidation hand-over is a call site of its own (known_findings.d/C08.json ties D19 to it)
+		e.tr.Line("lend.handover", f[1:]...)
+	} else {
+		e.tr.Line("lend.op", f...)
+	}
 	cls := outcome
 	if strings.HasPrefix(outcome, "err") {
 		cls = "err"
@@ -1224,8 +1229,9 @@ func (e *c08Env) genLiquidate() {
 
 // ---------------------------------------------------------------------------------------------- corpus (witnesses)
 
-// c08CorpusForeignPair — witness for notes/C08.md defect A: BorrowAsset never compares pair.AssetIn with the asset of the lend
-// position it debits, so cTokens of a cheap asset are accepted as if they were cTokens of the (dearer) lent asset.
+// c08CorpusForeignPair — regression for the repaired defect A (notes/C08.md): BorrowAsset used not to compare pair.AssetIn with the
+// asset of the lend position it debits, so cTokens of a cheap asset were accepted as if they were cTokens of the (dearer) lent
+// asset. The borrow through the foreign pair must now be refused; the regular one on the matching lend follows its own LTV.
 func c08CorpusForeignPair(t *testing.T, tr *Trace, rng *Rng) {
 	e := c08Setup(t, tr, rng, 0)
 	e.cfgLines()
@@ -1235,12 +1241,13 @@ func c08CorpusForeignPair(t *testing.T, tr *Trace, rng *Rng) {
 	n := func(x int64) sdk.Int { return sdk.NewInt(x) }
 	e.opFundModule(u4, 1, a3, e.coin(a3, n(5_000_000_000)))
 	// u1 lends A1 (price 2) and A2 (price 1) in pool 1, then borrows on the A1 lend through pair 1 (A2 → A3) pledging cA2:
-	// 1e9 cA2 are worth 1e9, valued as 1e9 A1 = 2e9, times LTV(A2) 0.5 ⇒ a loan of 900e6 is accepted on 1e9 of collateral
+	// 1e9 cA2 are worth 1e9; valued as 1e9 A1 = 2e9 (times LTV(A2) 0.5) a loan of 900e6 used to be accepted on 1e9 of collateral
 	e.opLend(u1, a1, e.denomOf[a1], n(1_000_000_000), 1, e.appOK) // lend 1
 	e.opLend(u1, a2, e.denomOf[a2], n(1_000_000_000), 1, e.appOK) // lend 2
 	e.opBorrow(u1, 1, 1, false, sdk.Coin{Denom: e.cDenom(a2), Amount: n(1_000_000_000)}, e.coin(a3, n(900_000_000)))
-	// the regular way (pair 1 on the A2 lend) refuses the same loan
+	// the regular way (pair 1 on the A2 lend) refuses the same loan and accepts one within the LTV
 	e.opBorrow(u1, 2, 1, false, sdk.Coin{Denom: e.cDenom(a2), Amount: n(1_000_000_000)}, e.coin(a3, n(900_000_000)))
+	e.opBorrow(u1, 2, 1, false, sdk.Coin{Denom: e.cDenom(a2), Amount: n(1_000_000_000)}, e.coin(a3, n(500_000_000)))
 }
 
 // c08CorpusHandover — witness for notes/C08.md defect B: a lend position that earned a reward pledges its whole principal; the
